@@ -91,6 +91,20 @@ def main():
     vkeys = enum_variants(tree, "MarkerValueVersion")
     mops = enum_variants(tree, "MarkerOperator")
 
+    # the variables of the diagram: declaration order of the enum and of the fields of its struct variants (derived Ord)
+    algebra = open(os.path.join(REPO, "src/marker/algebra.rs"), encoding="utf-8").read()
+    vbody = strip_comments(block(algebra, r"pub\(crate\) enum Variable\s*\{", "enum Variable"))
+    variable_variants = re.findall(r"^\s{4}([A-Z]\w*)\s*[({,]", vbody, re.M)
+    variable_fields = []
+    for name, fields in re.findall(r"^\s{4}([A-Z]\w*)\s*\{([^}]*)\}", vbody, re.M | re.S):
+        variable_fields.append((name, ",".join(re.findall(r"(\w+)\s*:", fields))))
+    if len(variable_variants) < 3:
+        raise TableError("enum Variable: cannot read the variants")
+    derives = re.search(r"#\[derive\(([^)]*)\)\]\s*pub\(crate\) enum Variable", algebra)
+    if not derives or "Ord" not in derives.group(1):
+        raise TableError("enum Variable: Ord is not derived any more (the variable order is defined elsewhere)")
+    extra_variants = enum_variants(tree, "MarkerValueExtra")
+
     # key names: impl FromStr for MarkerValue
     body = strip_comments(block(block(tree, r"impl FromStr for MarkerValue\s*\{", "FromStr for MarkerValue"), r"fn from_str\b[^{]*\{", "MarkerValue::from_str"))
     key_names = []
@@ -172,6 +186,9 @@ def main():
     out.append(f"def stringKeyVariants : List String := {strs(skeys)}")
     out.append(f"def versionKeyVariants : List String := {strs(vkeys)}")
     out.append(f"def operatorVariants : List String := {strs(mops)}")
+    out.append(f"def variableVariants : List String := {strs(variable_variants)}")
+    out.append(f"def variableFields : List (String × String) := {pairs(variable_fields)}")
+    out.append(f"def extraValueVariants : List String := {strs(extra_variants)}")
     out.append("/-- (marker key text, S = string key / V = version key / X = extra, variant) -/")
     out.append("def keyNames : List (String × String × String) := [" + ", ".join(f"({lean_str(n)}, {lean_str(k)}, {lean_str(v)})" for n, k, v in key_names) + "]")
     out.append(f"def stringKeyDisplay : List (String × String) := {pairs(skey_display)}")
